@@ -59,4 +59,38 @@ theorem C15_wait_keeps_running (c : Cfg) (s : St) (t : Nat) :
     (waitUntil c (s.emit (.sleep c.reconnect)) t).1.keepRunning = s.keepRunning := by
   rw [(frame_waitUntil c _ t).kr]; rfl
 
+/-- **reconnectLoopG_eq** — the reconnect loop over `setSock` WITH the guard the code now has is, in every world of the model,
+    the loop over `setSock` without it: the model the theorems are about is the code's behaviour (by induction on the
+    iterations; the state handed to `setSock` has `keep_running` on because the head of the loop tested it and the wait leaves it
+    alone). -/
+theorem reconnectLoopG_eq (c : Cfg) : ∀ (n : Nat) (s : St), reconnectLoopG c n s = reconnectLoop c n s := by
+  intro n
+  induction n with
+  | zero => intro s; rfl
+  | succ m ih =>
+    intro s
+    rw [reconnectLoopG, reconnectLoop]
+    by_cases hk : s.keepRunning = true
+    · simp only [hk, Bool.not_true, Bool.false_eq_true, ↓reduceIte]
+      have hkr := C15_wait_keeps_running c s ((s.emit (.sleep c.reconnect)).now + c.reconnect)
+      rcases hw : waitUntil c (s.emit (.sleep c.reconnect)) ((s.emit (.sleep c.reconnect)).now + c.reconnect) with ⟨s2, ok⟩
+      rw [hw] at hkr
+      simp only [] at hkr ⊢
+      cases ok with
+      | false => rfl
+      | true =>
+        simp only [Bool.not_true, Bool.false_eq_true, ↓reduceIte]
+        have hg : setSockG c s2 true = setSock c s2 true := by
+          unfold setSockG
+          have : s2.keepRunning = true := by rw [hkr]; exact hk
+          simp [this]
+        rw [hg]
+        have : reconnectLoopG c m = reconnectLoop c m := funext ih
+        rw [this]
+    · simp only [hk, Bool.not_false, ↓reduceIte]
+
+/-- and the first connection of a run is not a reconnection: the guard does not apply -/
+theorem setSockG_first (c : Cfg) (s : St) : setSockG c s false = setSock c s false := by
+  unfold setSockG; simp
+
 end WS.Props.C15b
